@@ -158,7 +158,7 @@ Record sstate := mk_sstate {
 Definition view_of (ss : sstate) (peers_after : list N) (q : N) : list N :=
   match aget q (ss_views ss) with Some v => v | None => peers_after end.
 
-Definition spec_op (rv : bool) (ms : list metric) (pis : list pinfo) (ss : sstate) (o : xop) : bool * sstate :=
+Definition spec_op (rv : bool) (ms : list metric) (pis : list pinfo) (ss : sstate) (o : xop) : bool * bool * sstate :=
   let '(d, err, es, after, peers_after, running_after) := o in
   let st := ss_st ss in let st' := of_list after in
   let starts := match d with XRestart p _ | XJoin p _ _ => if err then [] else [p] | _ => [] end in
@@ -212,13 +212,14 @@ Definition spec_op (rv : bool) (ms : list metric) (pis : list pinfo) (ss : sstat
         && forallb (fun q => (q =? p) || Bool.eqb (memN q (ss_peers ss)) (memN q peers_after)) (map pi_idx pis ++ ss_peers ss ++ peers_after)
     | _ => st_eqb st st' && (match es with [] => true | _ => false end) && seteqb peers_after (ss_peers ss)
     end in
-  (run_ok && op_ok && nodupb peers_after, ss1).
+  (op_ok && nodupb peers_after, run_ok, ss1).
 
-Fixpoint spec_run (rv : bool) (ms : list metric) (pis : list pinfo) (ss : sstate) (ops : list xop) : bool * sstate :=
+(* (what each operation did to log, pinset and peerset; who runs after it; state at the end) *)
+Fixpoint spec_run (rv : bool) (ms : list metric) (pis : list pinfo) (ss : sstate) (ops : list xop) : bool * bool * sstate :=
   match ops with
-  | [] => (true, ss)
-  | o :: rest => let '(ok, ss1) := spec_op rv ms pis ss o in
-                 let '(ok', ss2) := spec_run rv ms pis ss1 rest in (ok && ok', ss2)
+  | [] => (true, true, ss)
+  | o :: rest => let '(ok, rk, ss1) := spec_op rv ms pis ss o in
+                 let '(ok', rk', ss2) := spec_run rv ms pis ss1 rest in (ok && ok', rk && rk', ss2)
   end.
 
 Definition olds_eqb (a b : listing) : bool := list_eqb ofold_eqb (tl a) (tl b).
@@ -270,15 +271,21 @@ Definition final_ok (pis : list pinfo) (ops : list xop) (ss : sstate) (f : pfina
       && (if Nat.eqb cleans 0 then olds_eqb l0 l else true)
   end.
 
-Definition spec_okb (x : payload) : bool :=
+(* the three parts of the property on the observation: (operations, running peers, data folders at the end) *)
+Definition spec_parts (x : payload) : bool * bool * bool :=
   let '(kind, dmin, dmax, rv, ms, init, pis, pins0, ops, finals) := x in
   let ss0 := mk_sstate (of_list pins0) init (map pi_idx (filter pi_started pis)) []
                        (filter (fun q => negb (memN q init)) (map pi_idx pis)) [] in
-  let '(ok, ss) := spec_run rv ms pis ss0 ops in
-  ok && forallb (final_ok pis ops ss) finals && Nat.eqb (length finals) (length pis).
+  let '(ok, rk, ss) := spec_run rv ms pis ss0 ops in
+  (ok, rk, forallb (final_ok pis ops ss) finals && Nat.eqb (length finals) (length pis)).
+Definition spec_okb (x : payload) : bool := let '(a, b, c) := spec_parts x in a && b && c.
 
+(* code 20: an operation's effect on log / pinset / peerset (re-homing before the configuration entry, no pin dropped, disabled
+   re-pinning only removes, success = no member, C10's per-pin outcome); code 21: a removed peer did not stop itself, or a member
+   did; code 22: data folders at the end (removed and ready: cleaned once, rotated per C14; never out of the peerset: untouched) *)
 Definition check_case (c : case) : list (N * N * N) :=
   let '(id, x) := c in
+  let '(a, b, f) := spec_parts x in
   (if model_eqb x then [] else [(id, 1, 0)]) ++
-  (if spec_okb x then [] else [(id, 2, 0)]).
+  (if a then [] else [(id, 20, 0)]) ++ (if b then [] else [(id, 21, 0)]) ++ (if f then [] else [(id, 22, 0)]).
 Definition failing (cs : list case) : list (N * N * N) := flat_map check_case cs.
